@@ -428,6 +428,9 @@ func driveC09(o opts) error {
 		}
 	}
 	w.Dist["validation:mismatching-field-rejected"] = rejected
+	if err := c09Regressions(w); err != nil {
+		return err
+	}
 	w.Extra["oracle_known"] = known
 	return w.Flush()
 }
